@@ -103,6 +103,27 @@ impl Property for C11 {
             }
             q
         };
+        // names that resolve in more than one way: a column name the table defines twice, a column called like the
+        // `input` pseudo column; batch and incremental path must agree on what such a name means
+        let mut query = query;
+        let mut defs_t = sqlgen::table_defs(&cfg);
+        if cfg.variant == sqlgen::Variant::Capture && query.join.is_none() && rng.chance(1, 8) {
+            let cut = defs_t.rfind(");").unwrap_or(defs_t.len());
+            if rng.chance(1, 2) {
+                defs_t.replace_range(cut.., &format!(", line[{}] => {} TEXT);", rng.range(1, 3), rng.pick(&["k", "n", "r"])));
+            } else {
+                defs_t.replace_range(cut.., &format!(", line[{}] => input TEXT);", rng.range(1, 3)));
+                if query.aggregate {
+                    let i = query.projections.len();
+                    query.projections.push(format!("{} AS a{}", rng.pick(&["MAX(input)", "COUNT(DISTINCT input)", "STRING_AGG(input, '|')", "MIN(input)"]), i));
+                    if rng.chance(1, 3) {
+                        query.filter = Some("input != 'a'".to_owned());
+                    }
+                } else {
+                    query.projections.push("input".to_owned());
+                }
+            }
+        }
         let n_lines = if large { rng.range(18, if thorough { 90 } else { 50 }) as usize } else { rng.range(1, 12) as usize };
         let noise_pct = *rng.pick(&[0, 10, 30]);
         let mut lines: Vec<Vec<u8>> = Vec::new();
@@ -131,7 +152,7 @@ impl Property for C11 {
         json!({
             "prop": "C11",
             "joined": if query.join.is_some() { J::String(enc(&gen::join_lines(&joined, true))) } else { J::Null },
-            "defs": format!("{} {}", sqlgen::table_defs(&cfg), sqlgen::JOINED_DEFS),
+            "defs": format!("{} {}", defs_t, sqlgen::JOINED_DEFS),
             "stmt": query.text(),
             "aggregate": query.aggregate,
             "lines": enc_list(&lines),
@@ -250,6 +271,8 @@ impl Property for C11 {
             out.nontrivial.push(fnv_mix(fnv(stmt.as_bytes()), fnv(serde_json::to_string(&case["lines"]).unwrap().as_bytes())));
         }
         out.probe("aggregate", aggregate as u64);
+        out.probe("column_called_input", defs.contains("=> input TEXT") as u64);
+        out.probe("column_name_defined_twice", ["k", "n", "r"].iter().any(|c| defs.split("CREATE TABLE u").next().unwrap_or("").matches(&format!("=> {} ", c)).count() > 1) as u64);
         out.probe("distinct_having", (upper.contains("DISTINCT ") && upper.contains(" HAVING ")) as u64);
         out.probe("l1_error_agreed", l1_failed_at.is_some() as u64);
         out.probe("large_more_than_16_lines", (n > 16) as u64);
